@@ -316,3 +316,11 @@ impl Network {
         }
     }
 }
+
+#[cfg(feature = "verif")]
+#[path = "../verif/handshake_consensus.rs"]
+pub(crate) mod verif_handshake;
+
+#[cfg(feature = "verif")]
+#[path = "../verif/entry_consensus.rs"]
+pub(crate) mod verif_entry;
